@@ -3,5 +3,5 @@ From NV Require Import Common.Outcome Common.Conv Dict.KeyEq Dict.KeyHash Dict.D
 Require Extraction.
 Require Import ExtrOcamlBasic.
 Extraction "model.ml" conv_anchor key_eq key_eq_hm key_hash_real hm_slot step run zadd zeq from_pairs
-  uniqued set_of count_distinct frequencies classify group_all memo_calls
+  uniqued set_of set_dict dict_keys dict_values count_distinct frequencies classify group_all memo_calls
   bfind bset bremove bentries.
